@@ -544,3 +544,38 @@ V("C11", "make_whole-normalises-cell", PX, "        atom1 = sorted_bonds[j, 0]\n
 V("C11", "bonds-not-sorted", T, "            sorted_bonds = sorted(self._topology.bonds, key=lambda bond: bond[0].index)\n            sorted_bonds = np.asarray(\n                [[b0.index, b1.index] for b0, b1 in sorted_bonds],\n                dtype=np.int32,\n            )\n\n        box = np.asarray(result.unitcell_vectors, order=\"c\")\n        _geometry.whole_molecules",
   "            sorted_bonds = list(self._topology.bonds)\n            sorted_bonds = np.asarray(\n                [[b0.index, b1.index] for b0, b1 in sorted_bonds],\n                dtype=np.int32,\n            )\n\n        box = np.asarray(result.unitcell_vectors, order=\"c\")\n        _geometry.whole_molecules", "C11-R4", "Trajectory.make_molecules_whole")
 V("C11", "twin-floorf-plus-half", PX, "            offset[k] = frame_unitcell_vectors[2, k]*roundf(delta[2]/frame_unitcell_vectors[2,2])", "            offset[k] = frame_unitcell_vectors[2, k]*floorf(delta[2]/frame_unitcell_vectors[2,2] + 0.5)", None)
+
+# ---------------------------------------------------------------- C08
+SA = "mdtraj/geometry/src/sasa.cpp"
+V("C08", "center-sx-not-private", "mdtraj/rmsd/src/center_sse.h", "confp, i, x, y, z, x2, y2, z2, sx, sy, sz, trace)", "confp, i, x, y, z, x2, y2, z2, sy, sz, trace)", "C08-R1")
+V("C08", "center-confp-not-private", "mdtraj/rmsd/src/center_sse.h", "        confp, i, x, y, z, x2, y2, z2, sx, sy, sz, trace)", "        i, x, y, z, x2, y2, z2, sx, sy, sz, trace)", "C08-R1")
+V("C08", "sasa-shared-j-again", SA, "  int i;\n\n  /* work buffers that will be thread-local */", "  int i, j;\n\n  /* work buffers that will be thread-local */", None)
+V("C08", "sasa-outframe-not-private", SA, "  #pragma omp parallel private(wb1, wb2, outframebuffer, outframe)", "  #pragma omp parallel private(wb1, wb2, outframebuffer)", "C08-R1")
+V("C08", "sasa-accumulator-reset-removed", SA, "    for (int j = 0; j < n_atoms; j++) {\n        outframebuffer[j] = 0;\n    }\n", "", "C08-R2")
+V("C08", "sasa-outframe-independent-of-frame", SA, "    outframe = out + (n_groups * i);", "    outframe = out;", "C08-R1")
+V("C08", "neighborlist-getNeighbors-nonconst", "mdtraj/geometry/src/neighborlist.cpp", "const float* atomLocations, VoxelIndex atomVoxelIndex) const {", "const float* atomLocations, VoxelIndex atomVoxelIndex) {", "C08-R1")
+V("C08", "rmsd-prange-accumulates-scalar", "mdtraj/rmsd/_rmsd.pyx", """        for i in prange(target_n_frames, nogil=True):
+            msd = msd_atom_major(n_atoms, n_atoms, &target_xyz[i, 0, 0], &ref_xyz_frame[0, 0], target_g[i], ref_g, 0, NULL)
+            distances[i] = sqrtf(msd)""", """        for i in prange(target_n_frames, nogil=True):
+            msd += msd_atom_major(n_atoms, n_atoms, &target_xyz[i, 0, 0], &ref_xyz_frame[0, 0], target_g[i], ref_g, 0, NULL)
+            distances[i] = sqrtf(msd)""", "C08-R3")
+V("C08", "superpose-prange-rot-shared-slot", "mdtraj/rmsd/_rmsd.pyx", """                           g_target[target_frame], g_mobile[i], 1, &rot[i, 0, 0])
+            rot_atom_major(n_atoms_displace, &xyz_displace_mobile[i, 0, 0], &rot[i, 0, 0])
+    else:""", """                           g_target[target_frame], g_mobile[i], 1, &rot[0, 0, 0])
+            rot_atom_major(n_atoms_displace, &xyz_displace_mobile[i, 0, 0], &rot[0, 0, 0])
+    else:""", "C08-R3")
+V("C08", "dssp-framesecondary-hoisted", "mdtraj/geometry/src/dssp.cpp", """    for (int i = 0; i < n_frames; i++) {
+        const float* framexyz = xyz + (i * n_atoms * 3);
+        std::vector<int> hbonds(n_residues*2, -1);
+        std::vector<float> henergies(n_residues*2, 0);
+        // loop is the 'default' secondary structure, which applies
+        // when nothing else matches.
+        std::vector<ss_t> framesecondary(n_residues, SS_LOOP);
+""", """    std::vector<ss_t> framesecondary(n_residues, SS_LOOP);
+    for (int i = 0; i < n_frames; i++) {
+        const float* framexyz = xyz + (i * n_atoms * 3);
+        std::vector<int> hbonds(n_residues*2, -1);
+        std::vector<float> henergies(n_residues*2, 0);
+""", "C08-R4")
+V("C08", "kabsch-hbonds-stride-wrong", "mdtraj/geometry/src/geometry.cpp", "        hbonds += n_residues*2;\n        henergies += n_residues*2;", "        hbonds += n_residues*2;\n        henergies += n_residues;", "C08-R4")
+V("C08", "twin-memset-reset", SA, "    for (int j = 0; j < n_atoms; j++) {\n        outframebuffer[j] = 0;\n    }\n", "    { float* ob = outframebuffer; for (int j = 0; j < n_atoms; j++) { ob[j] = 0; } }\n", None)
